@@ -36,12 +36,14 @@ MakeKp ==
   /\ Go(IF pc[2] = sc.n THEN <<"plan", 0>> ELSE <<"kp", pc[2] + 1>>)
   /\ UNCHANGED sc
 
+\* the helper list is a slice in the caller's order: ascending, descending, rotated (CallerOrders)
 Plan ==
   /\ pc[1] = "plan"
   /\ \/ /\ "ok" \in Scenarios
         /\ \E H \in SUBSET IdSet : Card(H) >= sc.t /\ Card(H) <= sc.t + MaxExtraH /\
              \E x \in (IdSet \ H) \cup (NewIds \ IdSet) :
-                sc' = sc @@ [scen |-> "ok", H |-> Sorted(H), x |-> x]
+             \E o \in CallerOrders(Sorted(H)) :
+                sc' = sc @@ [scen |-> "ok", H |-> o, x |-> x]
      \/ /\ "bad" \in Scenarios
         /\ \E caller \in IdSet : \E other \in IdSet \ {caller} :
              \E hs \in { <<caller>>,                                  \* fewer than t (t >= 2)
